@@ -369,11 +369,15 @@ theorem evo_stepOp (r : Realm) (op : Op) : Evo r (r.stepOp op) := by
   cases op with
   | join k isLocal details roles cap =>
     rw [stepOp_join]
-    exact Quiet.evo ⟨rfl, rfl, rfl, rfl, ⟨rfl, rfl⟩⟩
+    split
+    · exact Evo.refl r
+    · exact Quiet.evo ⟨rfl, rfl, rfl, rfl, ⟨rfl, rfl⟩⟩
   | msg k m => exact evo_recvMsg r k m
   | buffer k => rw [stepOp_buffer]; exact Quiet.evo ⟨rfl, rfl, rfl, rfl, ⟨rfl, rfl⟩⟩
   | drop k =>
     rw [stepOp_drop]
+    split
+    · exact Evo.refl r
     split
     · exact Evo.refl r
     · exact Quiet.evo ⟨rfl, rfl, rfl, rfl, ⟨rfl, rfl⟩⟩
